@@ -20,7 +20,7 @@ let () = each_line (fun l ->
     let op = word t in
     match op with
     | "N" -> let k = num t in ("N", [k], None)
-    | "L" | "LI" -> let k = num t in let a = read_ta t in (op, [k], Some a)
+    | "L" | "LI" | "LA" -> let k = num t in let a = read_ta t in (op, [k], Some a)
     | "C" -> let k = num t in let j = num t in ("C", [k; j], None)
     | "F" -> let k = num t in let i = num t in ("F", [k; i], None)
     | "D" -> let k = num t in ("D", [k], None)
@@ -47,6 +47,7 @@ let () = each_line (fun l ->
         let cop = (match op, args with
           | "N", [k] -> OLoad (nn k, empty)
           | ("L" | "LI"), [k] -> (match a with Some a -> OLoad (nn k, a) | None -> failwith "model: missing automaton")
+          | "LA", [k] -> (match a with Some a -> OAdd (nn k, a) | None -> failwith "model: missing automaton")
           | "C", [k; j] -> OCopy (nn k, nn j)
           | "F", [k; _] -> (match st.fq with Some q -> OFinal (nn k, nn q) | None -> failwith "model: FQ missing")
           | "D", [k] -> ODestroy (nn k)
